@@ -697,8 +697,8 @@ def random_events(rng, table, base_types, length, max_objs):
 def run(ctx):
     quick = ctx.quick
     rng = np.random.default_rng(ctx.seed)
-    nsim = {"structures": 150, "dataset": 40, "inversion": 60} if quick else {"structures": 1500, "dataset": 300, "inversion": 500}
-    nrand = {"structures": 20, "dataset": 6, "inversion": 10} if quick else {"structures": 200, "dataset": 40, "inversion": 80}
+    nsim = {"structures": 150, "dataset": 40, "inversion": 60} if quick else {"structures": 12000, "dataset": 2000, "inversion": 4000}
+    nrand = {"structures": 20, "dataset": 6, "inversion": 10} if quick else {"structures": 1500, "dataset": 300, "inversion": 600}
     ctx.bounds = {"scenarios": list(SCENARIOS), "simulated_behaviours": nsim, "random_histories": nrand, "simulation_depth": 12,
                   "random_history_length": {"structures": 60, "dataset": 25, "inversion": 50}}
     jobs = []
